@@ -144,8 +144,9 @@ void do_registrations(mp::Interrupter* inter, int at_iter) {
     const sim::Json& r = regs[i];
     if ((int)r["at"].as_int(-1) != at_iter) continue;
     bool b = r["cb"].as_str() == "B";
-    sim::g.event("SETHANDLER_BEGIN " + std::to_string(i) + (b ? " B" : " A") + " cell" + std::to_string(i));
-    inter->SetHandler(b ? cbB : cbA, &g_reg_cells[i]);
+    const bool nul = r["null"].as_bool();      // a driver that needs no data registers its callback with a null pointer (cplexmp does)
+    sim::g.event("SETHANDLER_BEGIN " + std::to_string(i) + (b ? " B" : " A") + (nul ? std::string(" null") : " cell" + std::to_string(i)));
+    inter->SetHandler(b ? cbB : cbA, nul ? nullptr : &g_reg_cells[i]);
     sim::g.event("SETHANDLER_END " + std::to_string(i));
   }
 }
